@@ -193,6 +193,9 @@ class HandlerPolicy(Policy):
             return [(cfg, NodeV(fname[4:], fields, path))]
         if fname == "iter" and len(args) == 1 and isinstance(args[0], ListV):
             return [(cfg, ListV(args[0].items, "iter"))]
+        if fname in ("any", "all") and len(args) == 1 and isinstance(args[0], ListV) and not kwargs \
+                and all(interp.static_truth(x, cfg) is not None for x in args[0].items):
+            return None  # decided by the engine: a fold over values whose truth is known
         if fname in PURE_BUILTINS and not (args and isinstance(args[0], (ListV, Const)) and fname in ("tuple", "list", "set", "reversed", "str", "sorted", "frozenset")):
             if not (fname in ("tuple", "list", "set") and not args):
                 return [(cfg, App(fname, (*args, *[App("kw", (Const(k), v)) for k, v in kwargs.items()])))]
@@ -297,6 +300,7 @@ class EventInterp(Interp):
     """Interp that records every un-inlined call as an event (so effects are ordered with evaluations)."""
 
     def call(self, node, fname, fval, args, kwargs, cfg, out):
+        fname = self.held_name(node, fname, fval, cfg)
         r = self.policy.call(self, node, fname, fval, args, kwargs, cfg, out)
         if r is not None:
             return r
